@@ -3,6 +3,7 @@ package dtone
 import (
 	"fmt"
 	"net/http"
+	"sort"
 	"strings"
 
 	"github.com/nyaruka/gocommon/httpx"
@@ -69,9 +70,17 @@ func (s *service) Transfer(sender urns.URN, recipient urns.URN, amounts map[stri
 		return transfer, fmt.Errorf("product fetch failed: %w", err)
 	}
 
-	// find a matching product in any currency we have a desired amount for
+	// find a matching product in any currency we have a desired amount for - trying currencies in a fixed order so that
+	// the choice doesn't depend on map ordering when more than one currency has a matching product
+	currencies := make([]string, 0, len(amounts))
+	for currency := range amounts {
+		currencies = append(currencies, currency)
+	}
+	sort.Strings(currencies)
+
 	var product *Product
-	for currency, desiredAmount := range amounts {
+	for _, currency := range currencies {
+		desiredAmount := amounts[currency]
 		for _, p := range products {
 			if p.Destination.Unit == currency {
 				if p.Destination.Amount.Equal(desiredAmount) {
@@ -79,6 +88,9 @@ func (s *service) Transfer(sender urns.URN, recipient urns.URN, amounts map[stri
 					break
 				}
 			}
+		}
+		if product != nil {
+			break
 		}
 	}
 	if product == nil {
